@@ -73,7 +73,29 @@ def dataflow_programs(draw):
         v = draw(st.integers(0, 2))
         consumers.append(["task", ["list", [["lit", ["int", 150]], ["var", "a"], ["var", "b"]]],
                           {"a": src(v), "b": ["op", "add", src(v + 1), src(v + 2)]}, {}])
-    shape = draw(st.sampled_from(["list", "let", "map"]))
+    shape = draw(st.sampled_from(["list", "let", "map", "deferred", "deferred"]))
+    if shape == "deferred":
+        # the same upstream call written twice (two equal expressions, distinct objects): the second
+        # is only evaluated after the first has finished, in the taken branch of a cond, a later
+        # item of a seq, or a catch recover expression, and is then passed on to a consumer
+        v = draw(st.integers(0, 3))
+        first = ["task", ["list", [["lit", ["int", 300]], ["var", "a"]]], {"a": src(v)}, {}]
+        through = draw(st.sampled_from(["direct", "op", "getitem"]))
+        arg = src(v)
+        if through == "op":
+            arg = ["op", "add", src(v), ["lit", ["int", 1]]]
+        elif through == "getitem":
+            first = ["task", ["list", [["lit", ["int", 300]], ["var", "a"]]], {"a": ["task", ["list", [["lit", ["int", v]], ["lit", ["int", 5]]]], {}, {}]}, {}]
+            arg = ["getitem", ["task", ["list", [["lit", ["int", v]], ["lit", ["int", 5]]]], {}, {}], 0]
+        second = ["task", ["list", [["lit", ["int", 301]], ["var", "a"]]], {"a": arg}, {}]
+        form = draw(st.sampled_from(["cond", "seq", "catch"]))
+        if form == "cond":
+            core = ["cond", [first, second, ["lit", ["int", 0]]]]
+        elif form == "seq":
+            core = ["seq", [first, second]]
+        else:
+            core = ["list", [first, ["catch", ["list", [first, ["throw", "ValueError", "e1"]]], ["ValueError"], second, {}]]]
+        return ["list", [core] + consumers[:1]]
     if shape == "let":
         shared = derived(1)
         return ["let", "s", shared, ["list", [["task", ["list", [["lit", ["int", 200]], ["var", "a"]]], {"a": ["var", "s"]}, {}],
